@@ -218,9 +218,14 @@ def run(prop, tier, seed, configs, maxscripts, maxlen=None):
                         samples.append({"config": name, "script": [list(x) for x in sc], "observations": r_["obs"]})
                     continue
                 one = dict(inp, scripts=[inp["scripts"][r_["script"]]])
-                again = run_scripts(s, name, one, quiet="120ms", tag="-confirm")[0]
-                ok2, at2, allowed2 = g.accepts(*applied(sc, again["obs"]))
-                if ok2 and not again.get("monitor"):
+                confirmed = True
+                for quiet in ("120ms", "400ms", "1200ms"):      # a busy machine must not turn into a verdict
+                    again = run_scripts(s, name, one, quiet=quiet, tag="-confirm")[0]
+                    ok2, at2, allowed2 = g.accepts(*applied(sc, again["obs"]))
+                    if ok2 and not again.get("monitor"):
+                        confirmed = False
+                        break
+                if not confirmed:
                     accepted += 1
                     continue
                 asc2, aobs2 = applied(sc, again["obs"])
